@@ -311,7 +311,7 @@ Definition run_case (x : sexp) : bytes :=
         end
       else id ++ bad
   | SList [Atom k; Atom id; Atom rule; o] =>
-      if atom_is k "eval" then
+      if atom_is k "eval" || atom_is k "evals" then
         match atom_bytes rule, sexp_obj o with
         | Some r, Some ob =>
             let out := run go_lower r ob in
